@@ -62,6 +62,10 @@ SOL = {
              '    function pay(IERC20 t) public {\n        t.transfer(msg.sender, 1);\n    }\n    function h() private {}\n    constructor() {}\n}\n',
     'C.sol': 'pragma solidity 0.7.6;\ncontract C {\n    uint256 private v;\n    function s(bytes memory d) external returns (bytes32) {\n'
              '        v = v * 4;\n        return keccak256(d);\n    }\n}\n',
+    # several never-written memory parameters declared on different lines (a detector that picks "one" of them from a hash
+    # map reports a different line in every process)
+    'D.sol': 'pragma solidity ^0.8.0;\ncontract D {\n    function f(\n        uint256[] memory a,\n        string memory b,\n        bytes memory c\n    ) public pure returns (uint256) {\n'
+             '        return a.length;\n    }\n    function g(\n        uint8[] memory p,\n        uint8[] memory q\n    ) external pure returns (uint256) {\n        return p.length + q.length;\n    }\n}\n',
 }
 # {d1}..{d5} are directory ROLES: every tree gives them different names (directory names are not part of a finding - only
 # the base name of the file is - so the set of findings is the same while the listing order of the directories differs;
@@ -69,7 +73,7 @@ SOL = {
 # copies of the top-level A.sol; {d3}/M.sol has the same patterns as the copies.
 LAYOUT = [('A.sol', 'A.sol'), ('B.sol', 'B.sol'), ('C.sol', 'C.sol'), ('{d1}/A.sol', 'C.sol'), ('{d1}/Z.sol', 'A.sol'),
           ('{d1}/{d2}/B.sol', 'B.sol'), ('{d3}/M.sol', 'B.sol'), ('{d4}/A.sol', 'A.sol'), ('{d5}/A.sol', 'A.sol'),
-          ('{d5}/M.sol', 'A.sol'), ('skip.t.sol', 'A.sol'), ('notes.txt', 'A.sol')]
+          ('{d5}/M.sol', 'A.sol'), ('D.sol', 'D.sol'), ('{d3}/D.sol', 'D.sol'), ('skip.t.sol', 'A.sol'), ('notes.txt', 'A.sol')]
 DIR_NAMES = ['sub', 'other', 'deep', 'a', 'b', 'm', 'lib', 'src', 'zz', 'v1', 'v2', 'legacy', 'core', 'x', 'Y', '0']
 
 
